@@ -11,6 +11,12 @@ registrations saying exclusive=True - in every order (all permutations of the wh
 overloads, per-layer permutations and random interleavings beyond) into fresh plain set-backed Context
 chains through the public register_function, and the Lean model of register_function
 (`Yaql.ResolveCtx.run`) is told the same registrations in the same order.
+(c) held by OTHER CONTEXT SHAPES denoting the same family - a layer as a MultiContext whose members' overload
+sets are unioned (1-3 members, every split, the member list in every order, members with one or with a common
+parent) or as a LinkedContext - under enumeration orders of the members and registration orders (through the
+MultiContext / LinkedContext or directly on the members); the Lean model is told the same construction
+(`Op.multi` / `Op.linked`).  Payloads are plain defs, closures of ONE factory, lambdas or functions of a
+factory-made class (same __module__ / __qualname__): an overload is its definition object, never its name.
 Oracle (real code alone): ONE outcome - overload or error class, evaluation log, bound arguments - per
 family and call across all enumeration AND registration orders; supported by plain set-backed
 Contexts in subprocesses with different PYTHONHASHSEED / allocation patterns / registration orders."""
@@ -25,18 +31,24 @@ import resolvegen
 import resolvelib as rl
 
 ID = 'C06'
-LEAN_MODULES = ['Yaql.Props.C06', 'Yaql.Props.C06Reg']
+LEAN_MODULES = ['Yaql.Props.C06', 'Yaql.Props.C06Reg', 'Yaql.Props.C06Ctx']
 P = 'Yaql.Props.C06.'
 REQUIRED_THEOREMS = [P + n for n in (
     'perm_invariant', 'spec_perm_invariant', 'old_order_dependent', 'old_tuple_order_dependent',
     'visible_perm', 'stage_perm', 'choose_perm')] + [
     'Yaql.Props.C06Reg.' + n for n in (
         'register_perm_invariant', 'family_register_perm', 'resolve_register_perm_invariant', 'exclusive_any',
-        'last_registration_wins_order_dependent')]
+        'last_registration_wins_order_dependent')] + [
+    'Yaql.Props.C06Ctx.' + n for n in (
+        'run_nodup', 'ownLayerL_members_perm', 'resolve_members_perm_invariant',
+        'resolve_child_of_members_perm_invariant', 'resolve_multi_register_perm_invariant',
+        'keyed_merge_order_dependent')]
 TRUSTED = ['resolvelib.ListContext: the enumeration order of a layer is what its get_functions returns',
            'resolvelib.enc_fd / enc_arg (encoding of the real objects for the model)',
            'the reading of exclusive=True: a layer is exclusive for a name when ANY registration of that name in it said '
-           'so (contexts.py: _exclusive_funcs is a set of names that register_function only adds to)']
+           'so (a later non-exclusive registration does not take the flag back)',
+           'resolvelib.Family: the same family held by plain Contexts, by MultiContexts (union of the members) and by '
+           'LinkedContexts; the enumeration order of a MultiContext layer is controlled through its members']
 ASSUMPTIONS = ['the enumeration order of one context is the same for the two passes of one choose_overload call '
                '(true for a set that is not mutated in between)']
 
@@ -140,6 +152,16 @@ def gen_family(rng):
             for o in rng.sample(fns, rng.randrange(1, len(fns) + 1)):
                 o['x'] = True                           # only some of them do
         layers.append(layer)
+    # how the payloads are written: plain defs, closures of ONE factory, lambdas, functions of a factory-made class
+    # (the last three share __module__ and __qualname__ - an overload is identified by its definition object only)
+    style = rng.choice(['def', 'def', 'factory', 'factory', 'lambda', 'classfn'])
+    if rng.random() < 0.75:
+        for l in layers:
+            for o in l['fns']:
+                o['py'] = dict(style=style, via=rng.choice(['fd', 'fd', 'fdconv', 'callable']),
+                               nameby=rng.choice(['arg', 'arg', 'deco']))
+                if rng.random() < 0.5:
+                    o['py']['dseed'] = rng.randrange(1 << 30)
     return shape, layers
 
 
@@ -259,89 +281,156 @@ def outcome_key(r):
     return json.dumps([r.get('err', r.get('id')), r.get('delegate_error'), r['log'], r.get('bound')], sort_keys=True)
 
 
+def realizations(rng, layers, tier):
+    """other context shapes that denote the SAME family: per layer a shape ({} = plain Context)"""
+    n = len(layers)
+    out = []
+    for _ in range(1 if tier == 'quick' else 3):
+        shapes = [{} for _ in layers]
+        r = rng.random()
+        which = [0] if r < 0.55 else [rng.randrange(n)] if r < 0.8 else list(range(n))
+        for li in which:
+            nf = len(layers[li]['fns'])
+            if rng.random() < 0.72:
+                nm = rng.choice([2, 2, 3]) if nf > 1 else rng.choice([1, 2])
+                split = [rng.randrange(nm) for _ in range(nf)]
+                if rng.random() < 0.35:
+                    split = [0] * nf            # all overloads in ONE member (the others are empty)
+                shapes[li] = dict(k='multi', n=nm, split=split, morder=list(range(nm)),
+                                  mparents=rng.choice(['first', 'first', 'all']))
+            else:
+                shapes[li] = dict(k='linked')
+        out.append(shapes)
+    return out
+
+
+def with_shapes(layers, shapes):
+    return [dict(l, shape=sh) if sh else l for l, sh in zip(layers, shapes)]
+
+
+def member_orders(rng, shapes):
+    """the same realization with the members of its MultiContexts listed in other orders"""
+    out = []
+    for li, sh in enumerate(shapes):
+        if sh.get('k') == 'multi' and sh['n'] > 1:
+            for p in list(itertools.permutations(range(sh['n'])))[1:]:
+                s2 = [dict(x) for x in shapes]
+                s2[li]['morder'] = list(p)
+                out.append(s2)
+    return out
+
+
+def describe_shapes(shapes):
+    return '/'.join('multi%d%s' % (sh['n'], sh['morder']) if sh.get('k') == 'multi' else sh.get('k', 'plain')
+                    for sh in shapes)
+
+
 def run_family(case, drv, rng, tier, hist=None, stats=None):
     """-> list of (kind, key, message)"""
     fam = rl.Family(case['layers'], ordered=True)
     ords = orders(rng, case['layers'], tier)
     calls = [rl.BuiltCall(c) for c in case['calls']]
     fails = []
+    for fid, diffs in fam.table_fails[:1]:
+        fails.append(('mismatch', 'definition-table', 'overload %d: %s' % (fid, '; '.join(diffs[:3]))))
+    seen = [dict() for _ in calls]
+    by_real = [dict() for _ in calls]        # per call: realization -> set of outcome keys
+
+    def note(ci, label, what, r):
+        seen[ci].setdefault(outcome_key(r), (what, r))
+        by_real[ci].setdefault(label, set()).add(outcome_key(r))
+
+    def against(m, r, what, key):
+        if m is None or 'delegate_error' in r:
+            return
+        m_out = m.get('err', m.get('id'))
+        r_out = r.get('err', r.get('id'))
+        mlog = [p for p in m['log'] if p < rl.SILENT]
+        if m_out != r_out or mlog != r['log']:
+            fails.append(('mismatch', key, '%s: real %r log %r, model %r log %r' % (what, r_out, r['log'], m_out, mlog)))
+        elif 'id' in r and key == 'resolution' and rl.model_bound(fam.fds[r['id']], m) != r['bound']:
+            fails.append(('mismatch', 'bound-vector', '%s: real bound %r, model %r' % (
+                what, r['bound'], rl.model_bound(fam.fds[r['id']], m))))
+
+    # ---- (a) enumeration orders on the chain of plain ListContexts
     models = None
     if drv:
         req = dict(p='Resolve', fams=[dict(layers=enc_layers_in_order(fam, o), calls=[c.enc() for c in calls])
                                       for o in ords])
         req['lat'] = rl.T.lattice()
         models = drv.ask(req)['out']
-    seen = [dict() for _ in calls]
     for oi, o in enumerate(ords):
         for li, ids in enumerate(o):
             fam.set_order(li, ids)
         for ci, call in enumerate(calls):
             r = rl.run_real(fam, call)
-            seen[ci].setdefault(outcome_key(r), ('enumeration order %r' % (o,), r))
-            if models is not None and 'delegate_error' not in r:
-                m = models[oi][ci]
-                m_out = m.get('err', m.get('id'))
-                r_out = r.get('err', r.get('id'))
-                mlog = [p for p in m['log'] if p < rl.SILENT]
-                if m_out != r_out or mlog != r['log']:
-                    fails.append(('mismatch', 'resolution', 'order %r call %d: real %r log %r, model %r log %r' % (
-                        o, ci, r_out, r['log'], m_out, mlog)))
-                elif 'id' in r and rl.model_bound(fam.fds[r['id']], m) != r['bound']:
-                    fails.append(('mismatch', 'bound-vector', 'order %r call %d: real bound %r, model %r' % (
-                        o, ci, r['bound'], rl.model_bound(fam.fds[r['id']], m))))
+            what = 'enumeration order %r' % (o,)
+            note(ci, 'plain', what, r)
+            against(models[oi][ci] if models is not None else None, r, '%s call %d' % (what, ci), 'resolution')
     if stats is not None:
         # how many candidates get past mapping / are type-compatible at once (rules transcription, base order)
         for li, layer in enumerate(case['layers']):
             fam.set_order(li, [o['id'] for o in layer['fns']])
         stats['mapped'] = max([rl.spec_resolve(fam, c).get('nmapped', 0) for c in calls] + [0])
         stats['compat'] = max([rl.spec_resolve(fam, c).get('nmatch', 0) for c in calls] + [0])
-    # registration order: the same overloads (with their exclusive flags) registered into fresh plain,
-    # set-backed Contexts in every order; one outcome, and the one the model gives
     n_orders = len(ords)
+    # ---- (b) registration orders: the same overloads (with their exclusive flags) registered into fresh plain,
+    # set-backed Contexts in every order; (c) the same family held by other context shapes - MultiContexts whose
+    # members' sets make up a layer, LinkedContexts - under enumeration orders of the members, orders of the member
+    # list and registration orders.  One outcome, and the one the model gives.
+    runs = []           # (realization label, description, Family, enumeration order or None)
     if not case.get('no_reg_orders'):
-        regs = reg_orders(rng, case['layers'], tier)
-        n_orders += len(regs)
-        rmodels = None
-        if drv:
-            # the model of register_function (Yaql.ResolveCtx.run) is told the same registrations in the same order
-            nl = len(case['layers'])
-            defs = [rl.enc_fd(fd, i) for i, fd in sorted(fam.fds.items())]
-            hists = []
-            for ro in regs:
-                steps = [dict(k='root')] + [dict(k='child', i=k) for k in range(nl - 1)]
-                for li, fid in ro:
-                    if fid in fam.fds:
-                        o = next(o for o in case['layers'][li]['fns'] if o['id'] == fid)
-                        steps.append(dict(k='reg', i=nl - 1 - li, name='f', fid=fid,
-                                          x=bool(case['layers'][li].get('x')) or bool(o.get('x'))))
-                steps += [dict(k='call', i=nl - 1, name='f', call=c.enc()) for c in calls]
-                hists.append(dict(defs=defs, steps=steps))
-            rmodels = drv.ask(dict(p='Resolve', op='hist', lat=rl.T.lattice(), hists=hists))['out']
-        for ri, ro in enumerate(regs):
-            f2 = rl.Family(case['layers'], reg_order=ro, fds=fam.fds)
-            for ci, call in enumerate(calls):
-                r = rl.run_real(f2, call)
-                seen[ci].setdefault(outcome_key(r), ('registration order %r' % (ro,), r))
-                if rmodels is not None and 'delegate_error' not in r:
-                    m = rmodels[ri][ci]
-                    m_out = m.get('err', m.get('id'))
-                    r_out = r.get('err', r.get('id'))
-                    mlog = [p for p in m['log'] if p < rl.SILENT]
-                    if m_out != r_out or mlog != r['log']:
-                        fails.append(('mismatch', 'registration-resolution',
-                                      'registration order %r call %d: real %r log %r, model (exclusive = any registration '
-                                      'said so) %r log %r' % (ro, ci, r_out, r['log'], m_out, mlog)))
+        for ro in reg_orders(rng, case['layers'], tier):
+            runs.append(('plain', 'registration order %r' % (ro,),
+                         rl.Family(case['layers'], reg_order=ro, reuse=fam), None))
+    if not case.get('no_shapes'):
+        for shapes in (case['shapes'] if 'shapes' in case else realizations(rng, case['layers'], tier)):
+            label = describe_shapes(shapes)
+            lay = with_shapes(case['layers'], shapes)
+            f3 = rl.Family(lay, ordered=True, reuse=fam)
+            eo = orders(rng, case['layers'], tier)
+            if len(eo) > 10:
+                eo = eo[:1] + rng.sample(eo[1:], 9)
+            for o in eo:
+                runs.append((label, '%s, enumeration order %r' % (label, o), f3, o))
+            for s2 in member_orders(rng, shapes):
+                runs.append((label, 'members listed as %s' % describe_shapes(s2),
+                             rl.Family(with_shapes(case['layers'], s2), ordered=True, reuse=fam), None))
+            ros = reg_orders(rng, case['layers'], tier)
+            for ro in ([ros[0]] + rng.sample(ros[1:], min(3, len(ros) - 1))):
+                runs.append((label, '%s, registration order %r' % (label, ro),
+                             rl.Family(lay, reg_order=ro, reuse=fam), None))
+    n_orders += len(runs)
+    rmodels = None
+    if drv and runs:
+        # the model of the context constructors and of register_function (Yaql.ResolveCtx.run) is told the same
+        # construction and the same registrations in the same order
+        rmodels = drv.ask(dict(p='Resolve', op='hist', lat=rl.T.lattice(),
+                               hists=[f.model_hist(calls) for _, _, f, _ in runs]))['out']
+    for ri, (label, what, f2, o) in enumerate(runs):
+        if o is not None:
+            for li, ids in enumerate(o):
+                f2.set_order(li, ids)
+        for ci, call in enumerate(calls):
+            r = rl.run_real(f2, call)
+            note(ci, label, what, r)
+            against(rmodels[ri][ci] if rmodels is not None else None, r,
+                    '%s call %d (model: exclusive = any registration said so; a MultiContext layer = union of its '
+                    'members)' % (what, ci), 'registration-resolution')
     for ci, s in enumerate(seen):
         if hist is not None:
             r0 = next(iter(s.values()))[1]
             k = 'outcome:' + str(r0.get('err', 'chosen'))
             hist[k] = hist.get(k, 0) + 1
+            for label in by_real[ci]:
+                k = 'realization:' + label.split('[')[0].split('/')[0]
+                hist[k] = hist.get(k, 0) + 1
         if len(s) > 1:
-            key = 'order-dependent'
+            key = 'order-dependent' if any(len(v) > 1 for v in by_real[ci].values()) else 'context-shape-dependent'
             what = '; '.join('%s -> %s log %r' % (o, r.get('err', r.get('delegate_error', r.get('id'))), r['log'])
                              for o, r in list(s.values())[:3])
-            fails.append(('oracle', key, 'call %d has %d outcomes across %d enumeration / registration orders: %s' % (
-                ci, len(s), n_orders, what)))
+            fails.append(('oracle', key, 'call %d has %d outcomes across %d enumeration / registration orders and '
+                          'context shapes holding the same family: %s' % (ci, len(s), n_orders, what)))
     return fails, n_orders, seen
 
 
@@ -354,8 +443,10 @@ def shrink(case, drv, rng, tier, kind, key):
         except Exception:
             return False
         return any(f[0] == kind and f[1] == key for f in fs)
+    import time
+    deadline = time.time() + 25          # a shrunk input is a convenience: never spend minutes on it
     changed = True
-    while changed:
+    while changed and time.time() < deadline:
         changed = False
         cands = []
         for ci in range(len(case['calls'])):
@@ -367,10 +458,15 @@ def shrink(case, drv, rng, tier, kind, key):
             if len(case['layers']) > 1:
                 c = copy.deepcopy(case)
                 del c['layers'][li]
+                for sh in c.get('shapes') or []:
+                    del sh[li]
                 cands.append(c)
             for oi in range(len(layer['fns'])):
                 c = copy.deepcopy(case)
                 del c['layers'][li]['fns'][oi]
+                for sh in c.get('shapes') or []:
+                    if sh[li].get('split') and oi < len(sh[li]['split']):
+                        del sh[li]['split'][oi]
                 cands.append(c)
                 for pi in range(len(layer['fns'][oi]['params'])):
                     c = copy.deepcopy(case)
@@ -384,6 +480,34 @@ def shrink(case, drv, rng, tier, kind, key):
                 c = copy.deepcopy(case)
                 c['layers'][li]['x'] = False
                 cands.append(c)
+        for si in range(len(case.get('shapes') or [])):
+            c = copy.deepcopy(case)
+            del c['shapes'][si]
+            cands.append(c)
+            for li, sh in enumerate(case['shapes'][si]):
+                if sh:
+                    c = copy.deepcopy(case)
+                    c['shapes'][si][li] = {}
+                    cands.append(c)
+                if sh.get('k') == 'multi' and sh['n'] > 1:
+                    c = copy.deepcopy(case)
+                    c['shapes'][si][li]['n'] = sh['n'] - 1
+                    c['shapes'][si][li]['morder'] = list(range(sh['n'] - 1))
+                    cands.append(c)
+                if sh.get('mparents') == 'all':
+                    c = copy.deepcopy(case)
+                    c['shapes'][si][li]['mparents'] = 'first'
+                    cands.append(c)
+        for li, layer in enumerate(case['layers']):
+            for o in layer['fns']:
+                if o.get('py'):
+                    c = copy.deepcopy(case)
+                    for l2 in c['layers']:
+                        for o2 in l2['fns']:
+                            o2.pop('py', None)
+                    cands.append(c)
+                    break
+            break
         for ci, call in enumerate(case['calls']):
             for ai in range(len(call['args'])):
                 c = copy.deepcopy(case)
@@ -394,6 +518,8 @@ def shrink(case, drv, rng, tier, kind, key):
                 del c['calls'][ci]['kw'][ki]
                 cands.append(c)
         for c in cands:
+            if time.time() > deadline:
+                break
             if fails(c):
                 case = c
                 changed = True
@@ -436,7 +562,7 @@ def run(env, res):
     drv = env['driver']
     tier = env['tier']
     rng = common.make_rng(env['seed'], 'C06')
-    n_fam = 1700 if tier == "quick" else 8000
+    n_fam = 1100 if tier == "quick" else 4500
     res.rule = ('overload families of 1-3 layers with 2-6 overloads of equal arity over the lattice Base>L,R>D (+ shapes: '
                 'one-below-two-incomparable, lazy/eager mixes, no_kwargs mixes with keyword calls, general smart types, '
                 'tuple/class mixes, keyword-only parameters with/without defaults, */**, defaults the call omits; layers '
@@ -444,7 +570,10 @@ def run(env, res):
                 'satisfy several overloads at once; every call under all permutations of the enumeration order of each '
                 'layer of <= 4 overloads (random beyond) AND under all registration orders (<= 4 overloads: every '
                 'permutation of the whole register_function sequence; beyond: per-layer permutations and random '
-                'interleavings) on fresh set-backed contexts; distinct = distinct (family, calls); '
+                'interleavings) on fresh set-backed contexts AND on another context shape holding the same family (a layer as '
+                'a MultiContext of 1-3 members in every member order / as a LinkedContext; enumeration orders of the members, '
+                'registration orders through the composite or on the members); payloads written as defs / closures of one '
+                'factory / lambdas / class functions; distinct = distinct (family, calls); '
                 'non-trivial = some call has >= 2 type-compatible candidates or an ambiguity')
     hist = {}
     if env['replay']:
@@ -456,12 +585,15 @@ def run(env, res):
             res.fail(kind, key, msg, case)
         return res
     kept = []
+    import time
+    t0 = time.time()
     for k in range(len(HAND) + n_fam):
         if k < len(HAND):
             case, shape = HAND[k], 'hand'
         else:
             shape, layers = gen_family(rng)
             case = dict(layers=layers, calls=gen_calls(rng, shape, layers))
+            case['shapes'] = realizations(rng, layers, tier)
         stats = {}
         try:
             fs, n, seen = run_family(case, drv, rng, tier, hist, stats)
@@ -503,7 +635,10 @@ def run(env, res):
                 res.fail(kind, key, msg, case)
         if len(res.failures) >= 10:
             break
+    t1 = time.time()
     subprocess_part(kept, 4 if tier == 'quick' else 20, res, hist)
+    hist['seconds:families'] = round(t1 - t0, 1)
+    hist['seconds:subprocesses'] = round(time.time() - t1, 1)
     res.extra['histogram'] = hist
     return res
 
@@ -511,7 +646,12 @@ def run(env, res):
 LEVEL_TEXT = ('Lean 4 theorems: perm_invariant - the code-shaped model of runner.call/choose_overload gives the same overload, '
               'bound arguments, evaluation log and error class for every layer-wise permutation of the overloads, in full, '
               'for every class graph, family and call (resolve = resolveSpec, and visible_perm, stage_perm, choose_perm show '
-              'each stage of resolveSpec is a function of the overload set); C06Reg.register_perm_invariant - the model of '
+              'each stage of resolveSpec is a function of the overload set); C06Ctx: in every reachable state each context holds '
+              'a SET of definition objects (run_nodup), the layer of a MultiContext is the union of its members whatever the '
+              'order of the member list (ownLayerL_members_perm), so calls from it and from its children do not depend on '
+              'that order nor on the registration order (resolve_members_perm_invariant, '
+              'resolve_multi_register_perm_invariant; keyed_merge_order_dependent: a merge keyed by payload name would); '
+              'C06Reg.register_perm_invariant - the model of '
               'Context.register_function (sets of definitions, set of exclusive names) leaves the same contexts behind for '
               'every order of the same registrations, hence (family_register_perm, resolve_register_perm_invariant) every '
               'call from every context - plain, multi, linked - resolves the same; exclusive_any - a layer is exclusive '
